@@ -151,6 +151,11 @@ fill_stream(void) {
 #ifdef TEXT1
   stream[H + 1] = TEXT1;
 #endif
+#ifdef MARKER_AT
+  /* long bodies: the first body byte is the payload marker, so the (symbolic) rest is payload and parsing the
+   * message does not branch on every byte */
+  stream[MARKER_AT] = 0xFF;
+#endif
   /* message 2: Len 0, TKL 0, symbolic code */
   stream[T] = 0x00;
 }
